@@ -93,6 +93,24 @@ def mismatch(lean, py, path=''):
                 if m:
                     return m
             return None
+        if name == 'cell' and v is None:
+            # a constructor argument kept as an unparsed cell where the schema has a structured value: presence only (declared)
+            return None if isinstance(py, Cell) else f'{path}: Lean "a cell", library {type(py).__name__}'
+        if name == 'slice':
+            from pytoniq_core.boc.slice import Slice
+            if not isinstance(py, Slice):
+                return f'{path}: Lean Slice, library {type(py).__name__}'
+            if v is None:
+                return None                  # a raw leaf of a dictionary read without a value_deserializer: presence only (declared)
+            return None if V.cell_json_canon(v) == V.lib_cell_canon(py.to_cell()) else f'{path}: slices differ'
+        if name == 'tuple':
+            if not isinstance(py, tuple) or len(py) != len(v):
+                return f'{path}: Lean tuple of {len(v)}, library {type(py).__name__}'
+            for i in range(len(v)):
+                m = mismatch(v[str(i)], py[i], f'{path}({i})')
+                if m:
+                    return m
+            return None
         if name == 'dict':
             if not isinstance(py, dict) or [str(k) for k in py] != list(v):
                 return f'{path}: Lean dict keys {list(v)[:6]}, library {list(py)[:6] if isinstance(py, dict) else type(py).__name__}'
